@@ -137,7 +137,7 @@ def h_exit_codes(ctx):
     universe = catalogue.rule_id_universe()
     cmd = ctx.pick("cmd", cmds)
     fmt = ctx.pick("format", ("text", "json", "sarif"))
-    mode = ctx.pick("mode", ("run", "stub-raises-RuntimeError", "stub-raises-OSError", "missing-path",
+    mode = ctx.pick("mode", ("run", "stub-raises-RuntimeError", "stub-raises-OSError", "missing-path", "existing-then-missing-path", "missing-then-existing-path",
                              "missing-config", "malformed-yaml-config", "malformed-json-config",
                              "bad-format-option"))
     own_ids = [i for i in universe if catalogue.owns(cmd, i)]
@@ -177,6 +177,10 @@ def h_exit_codes(ctx):
     elif mode == "bad-format-option":
         args = [cmd, "--format", "xml"]
     args.append(target)
+    if mode == "existing-then-missing-path":
+        args.append(os.path.join(d, "no-such-file.py"))
+    elif mode == "missing-then-existing-path":
+        args[-1:] = [os.path.join(d, "no-such-file.py"), target]
     try:
         for m, _f in saved:
             m.execute_linting_on_paths = stub
@@ -237,7 +241,7 @@ def obligations(tier):
                       "_run_*_lint filters", "run_linter_command", "handle_linting_error",
                       "validate_paths_exist", "setup_base_orchestrator", "load_config_file",
                       "format_violations"],
-           bounds="all linter commands x 3 formats x (own 0..2, foreign 0..2 violations) + 7 usage-error classes "
+           bounds="all linter commands x 3 formats x (own 0..2, foreign 0..2 violations) + 9 usage-error classes "
                   "(enumerated by forking; nothing stays symbolic here)",
            timeout=400, workers=14, must_cover=("exit0", "exit1", "exit2"),
            stubs=("execute_linting_on_paths returns a prepared list / raises",)),
